@@ -454,4 +454,89 @@ theorem htInsert_noIndexError (d : Nat) (hd0 : 0 < d) (hsha : ∀ m, (lv.sha m).
       · simp only [pure, Except.pure] at h
         cases h
 
+/-! ### the level search -/
+
+/-- a higher level fits whatever a lower one fits -/
+theorem fits_mono (a b : Int) (n : Nat) (hab : a ≤ b) (ha0 : 0 ≤ a) (hL : 0 ≤ cfg.L) (h : fits cfg a n = true) :
+    fits cfg b n = true := by
+  unfold fits at h ⊢
+  have hb0 : 0 ≤ b := by omega
+  simp only [ha0, hb0, ge_iff_le, if_true, decide_eq_true_eq] at h ⊢
+  have hpow : (2 ^ a.toNat : Nat) ≤ 2 ^ b.toNat := Nat.pow_le_pow_right (by decide) (by omega)
+  have : cfg.L * ((2 ^ a.toNat : Nat) : Int) ≤ cfg.L * ((2 ^ b.toNat : Nat) : Int) :=
+    Int.mul_le_mul_of_nonneg_left (by exact_mod_cast hpow) hL
+  omega
+
+/-- the binary search returns the first level that fits: no IndexError when the levels ascend, are non-negative and the
+    last one fits -/
+theorem findLoop_ok (levels : List Int) (n : Nat) (hL : 0 ≤ cfg.L)
+    (hasc : ∀ (i j : Nat) (a b : Int), i ≤ j → levels[i]? = some a → levels[j]? = some b → a ≤ b)
+    (hnn : ∀ a ∈ levels, 0 ≤ a)
+    (f : Nat) (hf : f < levels.length) (hfit : ∀ a, levels[f]? = some a → fits cfg a n = true)
+    (hfirst : ∀ (j : Nat) (a : Int), j < f → levels[j]? = some a → fits cfg a n = false)
+    (fuel : Nat) (lo hi : Int) (hlo0 : 0 ≤ lo) (hlo : lo ≤ f) (hhi : (f : Int) - 1 ≤ hi) (hhi2 : hi ≤ levels.length)
+    (hfuel : hi + 2 - lo ≤ fuel) : ∃ r, findLoop cfg levels n fuel lo hi = .ok r ∧ levels[f]? = some r := by
+  induction fuel generalizing lo hi with
+  | zero => omega
+  | succ k ih =>
+    simp only [findLoop]
+    by_cases hle : lo ≤ hi
+    · simp only [hle, if_true]
+      have hmid0 : 0 ≤ (lo + hi) / 2 := by omega
+      have hmidhi : (lo + hi) / 2 ≤ hi := by omega
+      have hmidlo : lo ≤ (lo + hi) / 2 := by omega
+      -- mid < length: mid = length would need lo = hi = length, but lo ≤ f < length
+      have hmlt : ((lo + hi) / 2).toNat < levels.length := by omega
+      have hget : levels[((lo + hi) / 2).toNat]? = some levels[((lo + hi) / 2).toNat] := List.getElem?_eq_getElem hmlt
+      rw [hget]
+      simp only
+      by_cases hfm : fits cfg levels[((lo + hi) / 2).toNat] n = true
+      · simp only [hfm, if_true]
+        -- mid fits, so mid ≥ f
+        have hge : f ≤ ((lo + hi) / 2).toNat := by
+          rcases Nat.lt_or_ge ((lo + hi) / 2).toNat f with hlt | hge
+          · have := hfirst _ _ hlt hget
+            rw [hfm] at this; cases this
+          · exact hge
+        exact ih lo ((lo + hi) / 2 - 1) hlo0 hlo (by omega) (by omega) (by omega)
+      · simp only [hfm, Bool.false_eq_true, if_false]
+        -- mid does not fit, so mid < f (levels ascend, fits is monotone)
+        have hlt : ((lo + hi) / 2).toNat < f := by
+          rcases Nat.lt_or_ge ((lo + hi) / 2).toNat f with hlt | hge
+          · exact hlt
+          · have hfget : levels[f]? = some levels[f] := List.getElem?_eq_getElem hf
+            have hab := hasc f _ _ _ hge hfget hget
+            have := fits_mono cfg _ _ n hab (hnn _ (List.getElem_mem hf)) hL (hfit _ hfget)
+            exact absurd this hfm
+        exact ih ((lo + hi) / 2 + 1) hi (by omega) (by omega) hhi hhi2 (by omega)
+    · simp only [hle, if_false]
+      have hlof : lo = f := by omega
+      have hn : ¬ lo < 0 := by omega
+      simp only [hn, if_false]
+      have : lo.toNat = f := by omega
+      rw [this, List.getElem?_eq_getElem hf]
+      exact ⟨_, rfl, rfl⟩
+
+/-- `_find_adjacent_i` succeeds and returns a level of the list: ascending non-negative levels whose last one fits -/
+theorem findAdjacent_ok (levels : List Int) (n : Nat) (hL : 0 ≤ cfg.L)
+    (hasc : ∀ (i j : Nat) (a b : Int), i ≤ j → levels[i]? = some a → levels[j]? = some b → a ≤ b)
+    (hnn : ∀ a ∈ levels, 0 ≤ a) (hlast : ∃ a ∈ levels, fits cfg a n = true) :
+    ∃ i : Nat, findAdjacent cfg levels n = .ok (i : Int) := by
+  have hflt := List.findIdx_lt_length_of_exists (p := fun a => fits cfg a n) hlast
+  have hfp := List.findIdx_getElem (p := fun a => fits cfg a n) (w := hflt)
+  obtain ⟨r, hr, hget⟩ := findLoop_ok cfg levels n hL hasc hnn (levels.findIdx fun a => fits cfg a n) hflt
+    (fun a ha => by rw [List.getElem?_eq_getElem hflt] at ha; cases ha; exact hfp)
+    (fun j a hj ha => by
+      have hjl : j < levels.length := by omega
+      rw [List.getElem?_eq_getElem hjl] at ha; cases ha
+      have := List.not_of_lt_findIdx hj
+      simpa using this)
+    (levels.length + 2) 0 levels.length (by omega) (by omega) (by omega) (by omega) (by omega)
+  have hr0 : 0 ≤ r := hnn r (List.mem_of_getElem? hget)
+  refine ⟨r.toNat, ?_⟩
+  unfold findAdjacent
+  rw [hr]
+  congr 1
+  omega
+
 end SSEPy.Sch.DP17
